@@ -144,8 +144,13 @@ class DeduplicateHashedInitializersPass(ir.passes.InPlacePass):
 
                 # Hash tensor data to avoid storing large amounts of data in memory
                 hashed = hashlib.sha512()
-                tensor_data = const_val.numpy()
-                hashed.update(tensor_data)
+                if const_val.dtype.is_string():
+                    # numpy() of a string tensor is an object array: hashing it would hash the
+                    # element pointers (allocator dependent), not the strings
+                    hashed.update(_tobytes(const_val))
+                else:
+                    tensor_data = const_val.numpy()
+                    hashed.update(tensor_data)
                 tensor_digest = hashed.hexdigest()
 
                 tensor_dims = tuple(const_val.shape.numpy())
